@@ -33,6 +33,7 @@ class _State:
         self.torn = None
         self.frozen = False
         self.depth = 0
+        self.buffered = False
 
 
 S = _State()
@@ -80,7 +81,7 @@ def _effect(kind, rel, nbytes=None):
     if S.crash_at is not None and k == S.crash_at:
         S.frozen = True
         S.crash_label = label
-        if kind == "write" and S.torn is not None and nbytes:
+        if kind in ("write", "flush") and S.torn is not None and nbytes:
             b = {"1": 1, "len-1": max(0, nbytes - 1), "half": nbytes // 2}.get(S.torn, 0)
             return ("torn", min(b, nbytes))
         return "crash"
@@ -88,11 +89,45 @@ def _effect(kind, rel, nbytes=None):
 
 
 class FaultFile:
+    """Unbuffered model: every write() call reaches the disk at once (one effect each).
+    Buffered model (S.buffered): data reaches the disk only at flush()/close() or when
+    8 KiB have accumulated, as with CPython's default buffering; a crash loses what is
+    pending, and other effects (rename, remove, ...) can overtake it."""
+
+    BUFSIZE = 8192
+
     def __init__(self, real, rel):
         self._f = real
         self._rel = rel
+        self._pending = None
+
+    def _flush_pending(self):
+        if not self._pending:
+            return
+        data = self._pending[0][:0].join(self._pending)
+        self._pending = []
+        r = _effect("flush", self._rel, len(data))
+        if r == "drop":
+            return
+        if r == "apply":
+            self._f.write(data)
+            self._f.flush()
+            return
+        if isinstance(r, tuple):
+            self._f.write(data[: r[1]])
+            self._f.flush()
+        raise SimulatedCrash()
 
     def write(self, data):
+        if S.buffered:
+            if S.frozen:
+                return len(data)
+            if self._pending is None:
+                self._pending = []
+            self._pending.append(data)
+            if sum(len(x) for x in self._pending) >= self.BUFSIZE:
+                self._flush_pending()
+            return len(data)
         r = _effect("write", self._rel, len(data))
         if r == "drop":
             return len(data)
@@ -110,10 +145,14 @@ class FaultFile:
             self.write(ln)
 
     def flush(self):
+        if S.buffered:
+            self._flush_pending()
         if not S.frozen:
             self._f.flush()
 
     def close(self):
+        if S.buffered and not S.frozen:
+            self._flush_pending()
         try:
             self._f.close()
         except Exception:  # noqa: BLE001
@@ -203,10 +242,11 @@ def uninstall():
 class section:
     """with faultfs.section(root, crash_at=k, torn=None): ... ; effects counted in .log"""
 
-    def __init__(self, root, crash_at=None, torn=None):
+    def __init__(self, root, crash_at=None, torn=None, buffered=False):
         self.root = os.path.abspath(root)
         self.crash_at = crash_at
         self.torn = torn
+        self.buffered = buffered
 
     def __enter__(self):
         install()
@@ -216,6 +256,7 @@ class section:
         S.log = []
         S.crash_at = self.crash_at
         S.torn = self.torn
+        S.buffered = self.buffered
         S.frozen = False
         S.depth = 0
         S.crash_label = None
